@@ -27,11 +27,22 @@ SIMS = {
     'overlap-func': (['ws', False], lambda: __import__('py_stringsimjoin.utils.simfunctions',
                                                          fromlist=['overlap']).overlap,
                      lambda a, b: len(set(a) & set(b))),
+    # functions that see whether the tokens came from a set/bag or q=2/q=3 tokenizer (a token cache shared
+    # between differently configured tokenizers of one class would change them)
+    'count-ws-bag': (['ws', False], lambda: (lambda a, b: float(len(a) * 10 + len(b))),
+                     lambda a, b: float(len(a) * 10 + len(b))),
+    'count-ws-set': (['ws', True], lambda: (lambda a, b: float(len(a) * 10 + len(b))),
+                     lambda a, b: float(len(a) * 10 + len(b))),
+    'count-qg2': (['qg', 2, True, False], lambda: (lambda a, b: float(len(a) * 10 + len(b))),
+                  lambda a, b: float(len(a) * 10 + len(b))),
+    'count-qg3': (['qg', 3, True, False], lambda: (lambda a, b: float(len(a) * 10 + len(b))),
+                  lambda a, b: float(len(a) * 10 + len(b))),
     'levenshtein-raw': (None, lambda: Levenshtein().get_raw_score, lambda a, b: levenshtein(a, b)),
     'lambda-raw': (None, lambda: (lambda a, b: float(len(a) - len(b))), _lam),
 }
 THRESH = {'jaccard-method': (0.5, 1.0 / 3), 'overlap-func': (1, 2), 'levenshtein-raw': (1, 2),
-          'lambda-raw': (0.0, 1.0)}
+          'lambda-raw': (0.0, 1.0), 'count-ws-bag': (22.0,), 'count-ws-set': (22.0,), 'count-qg2': (43.0,),
+          'count-qg3': (43.0,)}
 
 
 def frames(lvals, rvals, pres, pad=0):
@@ -190,14 +201,18 @@ def chunks(xs, n):
 def layers(tier):
     quick = tier == 'quick'
     pres = seed() % 4
-    T22 = [(['a b', None], ['a', '']), (['a', 'a b'], ['a b', 'b']), (['', None], [None, 'a'])]
+    T22 = [(['a b', None], ['a', '']), (['a a b', 'a b'], ['a b', 'b b']), (['', None], [None, 'a'])]
     T32 = [(['a b', 'a', None], ['a b', 'a'])] + ([] if quick else [(['a', '', 'b a'], ['a', None])])
     jobs = []
     allsims = list(SIMS)
     for (lv, rv) in T22:
         for c in chunks(seqs_of(2, 2), 4):
-            jobs.append({'L': lv, 'R': rv, 'seqs': c, 'mode': 'ops', 'sims': allsims, 'pres': pres,
-                         'ids': ['gap', 'perm'] if lv[0] == 'a b' else ['gap']})
+            jobs.append({'L': lv, 'R': rv, 'seqs': c, 'mode': 'ops',
+                         'sims': allsims if lv[0] == 'a a b' else [x for x in allsims if not x.startswith('count-')],
+                         'pres': pres, 'ids': ['gap', 'perm'] if lv[0] == 'a b' else ['gap']})
+    for c in chunks(seqs_of(2, 2), 8):      # duplicate index labels on the candidate set, whatever the seed
+        jobs.append({'L': T22[1][0], 'R': T22[1][1], 'seqs': c, 'mode': 'ops', 'sims': ['jaccard-method', 'levenshtein-raw'],
+                     'pres': 3})
     for (lv, rv) in T32:
         S = seqs_of(3, 2, maxlen=3 if quick else None, repeats=False)
         if quick:
